@@ -22,7 +22,7 @@ N=2 (N=3 in the thorough tier), same oracle, keys "N=<n>:released-layout:<class>
 
 Third initial state ('emptied'): the warmed database with every session row deleted - the first sessions of a database,
 where an id rule that differs on an empty table (seed the numbering, count==0 shortcut) is the only one in force.  All
-interleavings for N=2 (N=3 thorough), same oracle, keys "N=<n>:emptied-layout:<class>".
+interleavings for N=2 and N=3, same oracle, keys "N=<n>:emptied-layout:<class>".
 
 Adder dimension: a third kind of actor, the ADDER - a worker that already owns a session (created unscheduled before
 every schedule) and runs Session.add(<tiny DEX from gen/dexgen.py>) - is interleaved with 1 and 2 session creators.  The
@@ -585,7 +585,7 @@ def sample_of(n, run, verdict):
 # ---- direct exploration -------------------------------------------------------------------------------
 def shards(ctx):
     return ([("explore", 2), ("explore", 3), ("released", 2)] + ([("released", 3)] if ctx.thorough else [])
-            + [("emptied", 2)] + ([("emptied", 3)] if ctx.thorough else [])
+            + [("emptied", 2), ("emptied", 3)]
             + [("adder", 1), ("adder", 2)]
             + [("tlc", n) for n in (TLC_N_THOROUGH if ctx.thorough else TLC_N_QUICK)])
 
